@@ -31,3 +31,14 @@ Print Assumptions C07_final_stages_keep_unserved.
 Theorem C07_negative_limit_refutes : ~ (forall nw, stmt_covered_is_lower_bound nw).
 Proof. exact covered_is_lower_bound_refuted. Qed.
 Print Assumptions C07_negative_limit_refutes.
+
+(** closing the loop with C14: the start schedule carries on every coverable node exactly as many vehicles as the
+    decoded flow tours visit it; hence tours that decompose a feasible flow of every type's network give a covered
+    start schedule — and by the theorems above the pipeline's result has exactly the lower bound of unserved passengers *)
+From RS Require Import Flow FlowStmts CoverStmts2 CoverFacts2.
+Theorem C07_start_formations_are_flow_visits : forall nw, stmt_from_tours_formations nw.
+Proof. exact from_tours_formations. Qed.
+Print Assumptions C07_start_formations_are_flow_visits.
+Theorem C07_feasible_flow_gives_covered_start : forall nw, stmt_flow_gives_covered_start nw.
+Proof. exact flow_gives_covered_start. Qed.
+Print Assumptions C07_feasible_flow_gives_covered_start.
